@@ -591,6 +591,58 @@ theorem quiescent_check_ok (s : St) (hinv : Inv s) (hidle : s.chk = .idle) (s' :
       simp only [quiescentCheckOk, hany, hv1, hv2, hv3]
       simp
 
+/-- the monitor's invariant predicate holds of every state any schedule can reach: "stopped ∧ a
+    live worker context" is never an outcome of the model. -/
+theorem view_inv_ok (n : Nat) (steps : List Step) : viewInvOk (view (runSteps (init n) steps)) = true := by
+  have i := inv_runSteps n steps
+  simp only [viewInvOk, view, i.liveEq]
+  cases hw : (runSteps (init n) steps).working
+  · simp [i.stoppedClear hw]
+  · simp
+
+theorem finishChk_sound (k : Nat) (s : St) : ∃ steps, finishChk k s = runSteps s steps := by
+  induction k generalizing s with
+  | zero => exact ⟨[], rfl⟩
+  | succ k ih =>
+    simp only [finishChk]
+    split
+    · exact ⟨[.chk], rfl⟩
+    · obtain ⟨steps, h⟩ := ih (chkStep s)
+      exact ⟨.chk :: steps, by simpa [runSteps, step] using h⟩
+
+theorem chkToLastPoll_sound (k : Nat) (s : St) : ∃ steps, chkToLastPoll k s = runSteps s steps := by
+  induction k generalizing s with
+  | zero => exact ⟨[], rfl⟩
+  | succ k ih =>
+    simp only [chkToLastPoll]
+    split
+    · exact ⟨[.chk], rfl⟩
+    · obtain ⟨steps, h⟩ := ih (chkStep s)
+      exact ⟨.chk :: steps, by simpa [runSteps, step] using h⟩
+
+/-- the `O` scenario of the model is a schedule of the atomic steps (so every schedule theorem,
+    in particular the invariant, applies to what the model predicts for it). -/
+theorem overlapRun_sound (s : St) : ∃ steps, overlapRun s = runSteps s steps := by
+  simp only [overlapRun]
+  obtain ⟨a, ha⟩ := chkToLastPoll_sound (s.counters.length + 3) s
+  rw [ha]
+  have happ : ∀ (x : St) (p q : List Step), runSteps (runSteps x p) q = runSteps x (p ++ q) := by
+    intro x p q; simp [runSteps, List.foldl_append]
+  have hlock : step (runSteps s a) (.lock 0) = runSteps s (a ++ [.lock 0]) := by
+    simp [runSteps, List.foldl_append]
+  rw [hlock]
+  split
+  · obtain ⟨c, hc⟩ := finishChk_sound (s.counters.length + 3) (runSteps s (a ++ [.lock 0]))
+    exact ⟨(a ++ [.lock 0]) ++ c, by rw [hc, happ]⟩
+  · obtain ⟨b, hb⟩ := finishChk_sound (s.counters.length + 3) (runSteps s (a ++ [.lock 0]))
+    rw [hb, happ]
+    obtain ⟨c, hc⟩ := finishChk_sound (s.counters.length + 3) (runSteps s ((a ++ [.lock 0]) ++ b))
+    exact ⟨((a ++ [.lock 0]) ++ b) ++ c, by rw [hc, happ]⟩
+
+theorem overlapRun_inv (s : St) (h : Inv s) : Inv (overlapRun s) := by
+  obtain ⟨steps, e⟩ := overlapRun_sound s
+  rw [e]; exact inv_runSteps_from h steps
+
 /-- non-vacuity: 2 latches, 2 workers; latch 1 locked twice and unlocked once is still executing,
     a check stops both workers; after the second unlock the next check resumes exactly two. -/
 example :
